@@ -1,7 +1,7 @@
 (* C18 — Staging and deployment never write outside their target directory.  Property theorems only. *)
 From Coq Require Import String List Bool.
 Import ListNotations.
-Require Import V.Path.Model V.Path.Proofs.
+Require Import V.Path.Model V.Path.Proofs V.Path.Archive V.Path.Deploy V.Path.PreLinks.
 Open Scope string_scope.
 
 (* For the SPECIFIED check (every member, and every link target, stays in the destination after
@@ -26,6 +26,34 @@ Theorem C18_staging_confined : forall (d : list string) (ms : list member),
 Proof. exact stage_extract_safe. Qed.
 Print Assumptions C18_staging_confined.
 
+(* No traversal through links: for every archive the repaired check accepts, no member (and no file a
+   hard-link member is linked to) is created through, or on top of, a symbolic link brought by the same
+   archive — the link-following [extract] creates exactly the lexically computed paths
+   normpath(join(destination, name)).  (The archive-side mirror of C18_manifest_no_redirect.) *)
+Theorem C18_archive_no_redirect : forall (d : list string) (ms : list member),
+  gooddir d = true -> tar_check d ms = true -> extract d ms = extract_lexical d ms.
+Proof. exact archive_no_redirect. Qed.
+Print Assumptions C18_archive_no_redirect.
+
+(* Working directories that ALREADY contain symbolic links (e.g. link references staged earlier), [pre] being
+   any set of links of the file system: for every archive the repaired check (which refuses a member whose
+   path is, or passes through, an existing link below the destination) accepts, the extraction — following the
+   pre-existing links and the links of the archive — creates exactly the lexical paths ... *)
+Theorem C18_prelinks_no_redirect : forall (pre : links) (d : list string) (ms : list member),
+  gooddir d = true -> real_dir pre d = true -> tar_check_pre pre d ms = true ->
+  extract_pre pre d ms = extract_lexical d ms.
+Proof. exact prelinks_no_redirect. Qed.
+Print Assumptions C18_prelinks_no_redirect.
+
+(* ... hence every path created, after resolving the pre-existing links, lies inside the real destination
+   (d real: no link is d or an ancestor of d, which is what os.path.realpath(destination) returns; the
+   hypothesis is necessary: C18_real_dir_needed_refuted). *)
+Theorem C18_prelinks_confined : forall (pre : links) (d : list string) (ms : list member),
+  gooddir d = true -> real_dir pre d = true ->
+  forall p, In p (stage_extract_pre pre d ms) -> within d p.
+Proof. exact prelinks_confined. Qed.
+Print Assumptions C18_prelinks_confined.
+
 (* copy / link staging: at most one entry, named by the last segment of the source (which contains
    no separator and is not "", "." or ".."), directly under the working directory. *)
 Theorem C18_copy_link : forall (work : list string) (src : string) (p : list string),
@@ -35,6 +63,20 @@ Theorem C18_copy_link : forall (work : list string) (src : string) (p : list str
   within work p /\ length p = S (length work).
 Proof. exact copy_link. Qed.
 Print Assumptions C18_copy_link.
+
+(* Migrated components (Job.stageIn removes the working directory and makes a link in the stage directory): the
+   single entry created is named by the separator-free last segment of the reference and lies directly in the
+   stage directory, i.e. the PARENT of the working directory; it takes the place of the removed working
+   directory exactly when that segment is the component's directory name.  (By design this is outside the
+   letter of the property: nothing is created inside the old working directory, it is replaced.) *)
+Theorem C18_migrated : forall (work : list string) (src : string) (p : list string),
+  migrate_entry work src = Some p ->
+  p = (removelast work ++ [basename src])%list /\ noslashb (basename src) = true /\
+  skipseg (basename src) = false /\ dotdot (basename src) = false /\
+  within (removelast work) p /\ length p = S (length (removelast work)) /\
+  (work <> [] -> (p = work <-> basename src = last work "")).
+Proof. exact migrated. Qed.
+Print Assumptions C18_migrated.
 
 (* A manifest accepted by the repaired Manifest.validate: every key is populated at
    <instance>/<key without "." and empty segments>, beneath the instance directory. *)
@@ -49,6 +91,24 @@ Theorem C18_manifest_no_redirect : forall (tgt : list string) (man : list entry)
   validate man = true -> deploy tgt man = map (fun e => (tgt ++ clean (fst e))%list) man.
 Proof. exact manifest_no_redirect. Qed.
 Print Assumptions C18_manifest_no_redirect.
+
+(* The files the deployment writes itself — <instance>/conf (made unless the manifest has that key) and the
+   package file conf/flowir_package.yaml or conf/dsl.yaml — are not reached through a manifest target that
+   is a link: for a manifest accepted by the deployment's checks (Manifest.validate + the conf rule of the
+   repair of F18d) they are created exactly at these names. *)
+Theorem C18_deploy_self_no_redirect : forall (dsl : bool) (tgt : list string) (man : list entry),
+  deploy_ok dsl man = true ->
+  deploy_self dsl tgt man =
+  ((if has_conf_key man then [] else [tgt ++ ["conf"]]) ++ [tgt ++ ["conf"; conf_file dsl]])%list.
+Proof. exact deploy_self_lexical. Qed.
+Print Assumptions C18_deploy_self_no_redirect.
+
+(* Hence, whatever the manifest: everything a deployment creates or writes (the manifest's targets and its own
+   files; nothing when the manifest is refused) is beneath the new instance directory. *)
+Theorem C18_deploy_confined : forall (dsl : bool) (tgt : list string) (man : list entry) (p : list string),
+  In p (deploy_all dsl tgt man) -> within tgt p.
+Proof. exact deploy_all_safe. Qed.
+Print Assumptions C18_deploy_confined.
 
 (* non-vacuity: a benign archive (directories, a file, a relative symbolic link with "..", a hard
    link, an absolute name inside the destination) is accepted by the repaired check and extracted where
@@ -65,5 +125,20 @@ Example C18_nonvacuous :
   tar_check d [("l", KSym "sub"); ("l/x", KFile)] = false /\
   validate [("bin", "scripts"); ("data/sub", "/p/x:link"); ("./conf", "c:copy")] = true /\
   validate [("../x", "src")] = false /\ validate [("a", "/p/src:link"); ("a/b", "s:copy")] = false /\
-  stage_entry d "/p/stages/stage0/prod/out.txt" = Some (d ++ ["out.txt"])%list.
+  extract d ok = extract_lexical d ok /\
+  (let pre := [(d ++ ["prod"], ["out"]); (["t"; "work2"; "l"], d); (d ++ ["a"; "in"], d ++ ["z"])]%list in
+   real_dir pre d = true /\ tar_check_pre pre d [("a/b.txt", KFile); ("s", KSym "prod")] = true /\
+   stage_extract_pre pre d [("a/b.txt", KFile); ("s", KSym "prod")] = [d ++ ["a"; "b.txt"]; d ++ ["s"]]%list /\
+   tar_check_pre pre d [("prod/new.txt", KFile)] = false /\ tar_check_pre pre d [("prod", KFile)] = false /\
+   tar_check_pre pre d [("a/in/x", KFile)] = false /\ tar_check_pre pre d [("h", KHard "prod/secret.txt")] = false /\
+   real_dir [(["t"], ["out"])] d = false) /\
+  deploy_ok false [("bin", "scripts"); ("data/sub", "/p/x:link"); ("./conf", "c:copy")] = true /\
+  deploy_all false ["loc"; "i"] [("bin", "scripts"); ("data", "/p/x:link")] =
+    [["loc"; "i"; "bin"]; ["loc"; "i"; "data"]; ["loc"; "i"; "conf"]; ["loc"; "i"; "conf"; "flowir_package.yaml"]] /\
+  deploy_ok false [("conf", "/p/c:link")] = false /\ deploy_ok false [("./conf/", "/p/c:link")] = false /\
+  deploy_ok false [("conf", "/p/c"); ("conf/flowir_package.yaml", "/p/f:link")] = false /\
+  deploy_ok true [("conf", "/p/c"); ("conf/flowir_package.yaml", "/p/f:link")] = true /\
+  stage_entry d "/p/stages/stage0/prod/out.txt" = Some (d ++ ["out.txt"])%list /\
+  migrate_entry d "/p/stages/stage0/work" = Some d /\ migrate_entry d "/p/stages/stage0/prod" = Some ["t"; "prod"] /\
+  migrate_entry d "/p/stages/stage0/prod/.." = None.
 Proof. vm_compute. repeat split; reflexivity. Qed.
